@@ -5,7 +5,8 @@
 # 3. file it under /verif/seeded/<ID>/<n>/ with meta.json
 id=$1; n=$2; crate=$3; shift 3
 wt=/tmp/wt/$id
-dst=/verif/seeded/$id/$n
+dstn=${DSTN:-$n}   # round 2: DSTN=3|4 files change 1|2 as seed 3|4
+dst=/verif/seeded/$id/$dstn
 cd $wt || exit 2
 git checkout -q -- . 2>/dev/null
 mkdir -p crates/$crate/tests
@@ -36,7 +37,7 @@ mkdir -p $dst
 cp $wt/seeded/change$n.diff $dst/patch.diff
 cp $wt/seeded/demo$n.rs $dst/demo.rs
 cp $wt/seeded/notes$n.md $dst/notes.md
-python3 - "$id" "$n" "$crate" "$ok" "$without" "$suite" "$with" "$results" <<'PY'
+python3 - "$id" "$dstn" "$crate" "$ok" "$without" "$suite" "$with" "$results" <<'PY'
 import json, sys
 id, n, crate, ok, without, suite, with_, results = sys.argv[1:9]
 notes = open(f"/verif/seeded/{id}/{n}/notes.md").read()
